@@ -33,7 +33,7 @@ func genC15(t *rapid.T) c15Case {
 	case "vegas":
 		c.Cfg.Max = rapid.IntRange(1, 20).Draw(t, "max")
 		c.Cfg.Initial = rapid.IntRange(1, c.Cfg.Max).Draw(t, "initial")
-		c.Cfg.ProbeMult = rapid.OneOf(rapid.IntRange(1, 50), rapid.Just(0)).Draw(t, "pm")
+		c.Cfg.ProbeMult = rapid.IntRange(1, 50).Draw(t, "pm") // explicit: the staleness bound must not depend on what the library's default happens to be
 		m := c.Cfg.ProbeMult
 		if m <= 0 {
 			m = 30
@@ -44,7 +44,7 @@ func genC15(t *rapid.T) c15Case {
 		c.Cfg.Min = rapid.IntRange(1, 4).Draw(t, "min")
 		c.Cfg.Initial = rapid.IntRange(c.Cfg.Min, c.Cfg.Max).Draw(t, "initial")
 		c.Cfg.RTTTol = rapid.SampledFrom([]float64{2, 1, 1.5}).Draw(t, "tol")
-		c.Cfg.ProbeInterval = rapid.OneOf(rapid.IntRange(1, 200), rapid.SampledFrom([]int{-1, 0})).Draw(t, "pi")
+		c.Cfg.ProbeInterval = rapid.OneOf(rapid.IntRange(1, 200), rapid.IntRange(1, 200), rapid.Just(-1)).Draw(t, "pi")
 		c.Cfg.Queue = "fixed:1"
 		pi := c.Cfg.ProbeInterval
 		if pi == 0 {
